@@ -244,7 +244,7 @@ def check_hist(ctx, depth, first):
         if bad:
             class P:  # minimal path-like for reporting
                 pass
-            ctx.violations.append({"check": ctx.name, "kernel": "k_owner_hist", "violated": bad, "inputs": {"ops": seq}, "outcome": q.status,
+            ctx.report(q, {"check": ctx.name, "kernel": "k_owner_hist", "violated": bad, "inputs": {"ops": seq}, "outcome": q.status,
                                    "msg": q.info, "replayed": None, "case": ctx.native_case(q, m) if ctx.native else None})
         else:
             ctx.discharged += 1
@@ -387,7 +387,7 @@ def check_apm_max(ctx, cursor):
         elif q.status == "unwind":
             # the search reads a table of 255 entries with an 8-bit index and does not modify it: a block visited more
             # than 1200 times means the same (index, table) state recurs - the search does not terminate
-            ctx.fail(q, "the search for a free token does not terminate (more than 1200 iterations over a 255-entry table): %s" % q.info)
+            ctx.fail(q, "the search for a free token does not terminate (more than 1200 iterations over a 255-entry table): %s" % q.info, force=True)
     ctx.only(paths, "ret", "abort", "unwind")
     ctx.expect(paths, ret=1, abort=1)
 
